@@ -202,7 +202,7 @@ def logGas (p26 : Bool) (n : Nat) (m : Mem) (memorySize : Nat) (requested : Word
     | some r => some (r, m')
 
 def expGas (p26 : Bool) (perByte : Nat) (exponent : Word) : Option Nat :=
-  let expByteLen := (bitLen exponent + 7) / 8
+  let expByteLen := (bitLen (exponent % W256) + 7) / 8      -- a uint256 holds its value mod 2^256
   let gas := wmul expByteLen perByte
   let s := safeAdd gas 10
   if s.2 then none else
